@@ -272,6 +272,8 @@ func (tm *termer) build(v ssa.Value) *term {
 			return canonCmp(x.Op, l, r)
 		}
 		return &term{op: "bin", name: x.Op.String(), args: []*term{l, r}}
+	case *ssa.Index:
+		return &term{op: "elem", args: []*term{tm.of(x.X), tm.of(x.Index)}}
 	case *ssa.Field:
 		fv := fieldVar(x.X.Type(), x.Field)
 		name := fmt.Sprint(x.Field)
@@ -514,6 +516,56 @@ func recogniseIndexLoop(l *ssau.Loop) *indexLoop {
 	}
 	il.index = cmp.X
 	return il
+}
+
+// recogniseConstLoop: `for i := 0; i < K; i++` / `for i := range [K]T` with a constant K.
+// Returns the value used as subscript in the body, K, and "" — or why the loop is something else.
+func recogniseConstLoop(l *ssau.Loop) (index ssa.Value, bound int64, why string) {
+	h := l.Header
+	ifi, ok := h.Instrs[len(h.Instrs)-1].(*ssa.If)
+	if !ok {
+		return nil, 0, "the loop condition is not tested in the loop header"
+	}
+	cmp, ok := ifi.Cond.(*ssa.BinOp)
+	if !ok || cmp.Op != token.LSS {
+		return nil, 0, "the loop condition is not `index < constant`"
+	}
+	if !l.Blocks[h.Succs[0]] || l.Blocks[h.Succs[1]] {
+		return nil, 0, "the loop is not entered on the true branch of its condition"
+	}
+	k, isC := ssau.ConstInt(cmp.Y)
+	if !isC {
+		return nil, 0, "the loop bound is not a constant"
+	}
+	var phi *ssa.Phi
+	var init int64
+	switch x := cmp.X.(type) {
+	case *ssa.Phi:
+		phi, init = x, 0
+	case *ssa.BinOp:
+		if p, ok := x.X.(*ssa.Phi); ok && x.Op == token.ADD && isConstInt(x.Y, 1) {
+			phi, init = p, -1
+		}
+	}
+	if phi == nil || phi.Block() != h {
+		return nil, 0, "the loop index is not a counter of this loop"
+	}
+	for i, e := range phi.Edges {
+		if !l.Blocks[h.Preds[i]] {
+			if !isConstInt(e, init) {
+				return nil, 0, "the loop does not start at the first element"
+			}
+			continue
+		}
+		inc, ok := e.(*ssa.BinOp)
+		if !ok || inc.Op != token.ADD || !isConstInt(inc.Y, 1) || inc.X != phi {
+			return nil, 0, "the counter is not advanced by exactly 1 on every back edge"
+		}
+		if init == -1 && e != cmp.X {
+			return nil, 0, "the range counter is advanced irregularly"
+		}
+	}
+	return cmp.X, k, ""
 }
 
 // exitsOnlyFromHeader reports blocks other than the header from which the loop can be left.
